@@ -53,6 +53,55 @@ var decodeInto = map[string]int{
 	"(*math/big.Int).SetString":                  0,
 }
 
+// pure functions among the effect-free callees: deterministic functions of value arguments (strings, integers,
+// arrays). Their result is an uninterpreted function of the arguments instead of a fresh value per call, which
+// relational obligations (commute.go) need.
+var pureFns = map[string]bool{
+	"com.tuntun.rangers/node/src/common.HexToAddress": true, "com.tuntun.rangers/node/src/common.HexToHash": true,
+	"com.tuntun.rangers/node/src/common.HexStringToAddress": true,
+	"strings.ToLower": true, "strings.ToUpper": true, "strings.TrimSpace": true,
+}
+
+func (vc *VC) pureCall(st *State, full string, args []Val, resType types.Type) (Val, bool) {
+	if !pureFns[full] || resType == nil {
+		return Val{}, false
+	}
+	if _, isTuple := resType.(*types.Tuple); isTuple {
+		return Val{}, false
+	}
+	rs := vc.sortOf(resType)
+	valueSort := func(s *Sort) bool {
+		return s != nil && (s.K == SInt || s.K == SBV || s.K == SBool || s.K == SArray || s == sortStr || s.Name == "Str")
+	}
+	if !valueSort(rs) {
+		return Val{}, false
+	}
+	var as []Term
+	var sig []string
+	for _, a := range args {
+		if a.P != nil || a.T.T == nil || !valueSort(a.T.T) {
+			return Val{}, false
+		}
+		as = append(as, a.T)
+		sig = append(sig, a.T.T.Name)
+	}
+	name := smtIdent("pure!" + shortName(full))
+	decl := fmt.Sprintf("(declare-fun %s (%s) %s)", name, strings.Join(sig, " "), rs.Name)
+	if !vc.pureDecl[decl] {
+		if vc.pureDecl == nil {
+			vc.pureDecl = map[string]bool{}
+		}
+		vc.pureDecl[decl] = true
+		vc.sortDecls = append(vc.sortDecls, decl)
+	}
+	if rs == sortStr || rs.Name == "Str" {
+		vc.needStr = true
+	}
+	r := vc.define("pure", mk(app(name, as...), rs))
+	vc.assumeWF(st, r, resType)
+	return Val{T: r}, true
+}
+
 func isEffectFree(full string) bool {
 	for _, p := range effectFreePrefixes {
 		if strings.HasPrefix(full, p) {
@@ -269,6 +318,12 @@ func (vc *VC) call(fr *Frame, st *State, ins ssa.Instruction, cc *ssa.CallCommon
 	// 3. effect-free allow-list
 	if isEffectFree(full) {
 		vc.effectFree[full]++
+		if pv, ok := vc.pureCall(st, full, args, resType); ok {
+			// a pure function of value arguments: the same arguments give the same result
+			vc.effectFree[full+" (as a function of its arguments)"]++
+			setRes(pv)
+			return
+		}
 		v := vc.freshVal(st, "ef!"+shortName(full), resType)
 		if full == "errors.New" || full == "fmt.Errorf" || full == "github.com/pkg/errors.New" || full == "github.com/pkg/errors.Errorf" {
 			vc.assume(st, tNot(tEq(v.T, mk("(mk-iface 0 0)", sortIface))))
